@@ -394,7 +394,7 @@ pub fn check_cli(e: &BFCase, text: &str, mode: u8, ctx: &mut Ctx) -> CheckResult
         args.push("--load_matching".into());
     }
     let mut args1 = args.clone();
-    args1.extend(["--oc".to_string(), "a.csv".to_string(), "--of".to_string(), "b.csv".to_string()]);
+    args1.extend(["--oc".to_string(), "a.csv".to_string(), "--of".to_string(), "b.csv".to_string(), "--json".to_string(), "j1.json".to_string()]);
     let run1 = run_cli_checked(&args1, &files).map_err(|x| Failure::new("harness", x))?;
     let res = (|| -> CheckResult {
         ensure!(!run1.timed_out && run1.signal.is_none() && !run1.stderr.contains("panicked at"), "cli_crash", "{}", run1.summary());
@@ -408,6 +408,9 @@ pub fn check_cli(e: &BFCase, text: &str, mode: u8, ctx: &mut Ctx) -> CheckResult
             args2.push(format!("--kexp={}", f32_text(e.k)));
             args2.push(format!("--arearef={}", f32_text(e.area)));
         }
+        args2.push("--json".into());
+        args2.push("j2.json".into());
+        let j1 = run1.file("j1.json");
         if e.lm {
             args2.push("--load_matching".into());
         }
@@ -415,6 +418,36 @@ pub fn check_cli(e: &BFCase, text: &str, mode: u8, ctx: &mut Ctx) -> CheckResult
         let r = (|| -> CheckResult {
             ensure!(!run2.timed_out && run2.signal.is_none() && !run2.stderr.contains("panicked at"), "cli_crash", "second run: {}", run2.summary());
             ensure!(run2.status == Some(0), "cli_rerun_status", "cteepbd fails on the files it emitted itself: {}", run2.summary());
+            // the weighting factors the second run works with are the ones the first run used (to the three
+            // decimals of the emitted file), key by key
+            {
+                let fmap = |txt: Option<String>| -> Option<BTreeMap<String, [f64; 3]>> {
+                    let v: serde_json::Value = serde_json::from_str(&txt?).ok()?;
+                    let mut m = BTreeMap::new();
+                    for x in v.get("wfactors")?.get("wdata")?.as_array()? {
+                        let k = format!("{}, {}, {}, {}", x.get("carrier")?.as_str()?, x.get("source")?.as_str()?, x.get("dest")?.as_str()?, x.get("step")?.as_str()?);
+                        m.entry(k).or_insert([x.get("ren")?.as_f64()?, x.get("nren")?.as_f64()?, x.get("co2")?.as_f64()?]);
+                    }
+                    Some(m)
+                };
+                let (m1, m2) = (fmap(j1.clone()), fmap(run2.file("j2.json")));
+                let (m1, m2) = match (m1, m2) {
+                    (Some(a), Some(b)) => (a, b),
+                    _ => fail!("cli_files", "a --json file of one of the two runs is missing or has no wfactors"),
+                };
+                for (k, a) in &m1 {
+                    // (the factors of cogenerated electricity are derived again from the re-read components, whose
+                    // printing error they amplify without bound when the cogenerated amount is small: not compared)
+                    if k.contains(", COGEN,") {
+                        continue;
+                    }
+                    if let Some(b) = m2.get(k) {
+                        for j in 0..3 {
+                            ensure!((a[j] - b[j]).abs() <= 0.00051 + 1e-6 * a[j].abs(), "cli_same_factors", "factor `{}`: the original run used {:?}, the run from the emitted files uses {:?}", k, a, b);
+                        }
+                    }
+                }
+            }
             if mode >= 1 {
                 for (prefix, want) in [("Área de referencia (", format!("Área de referencia (metadatos) [m2]: {:.2}", e.area)), ("Factor de exportación (", format!("Factor de exportación (metadatos) [-]: {:.1}", e.k))] {
                     let got = run2.stdout.lines().find(|l| l.starts_with(prefix)).unwrap_or("");
